@@ -25,7 +25,8 @@ EXPLANATION = (
     'one was waited for; (4) search listeners are only invoked from the search that precedes finishSearch; (5) isready '
     '-> waitReady -> exactly one readyok; every exit of the protocol loop passes engineThread.quit(); the quit command '
     'sets the quit flag; (6) Parameters::set is not reachable from the protocol thread. This decides the structural '
-    'part of the contract, not the behaviour.')
+    'part of the contract, not the behaviour.'
+    ' (9) the command parser never rejects a token it has already consumed (list terminators are peeked at); (10) for a remaining time <= 0 the final soft and hard limits are not negative, so a clock-limited go cannot degenerate into an unlimited search.')
 UNDECIDED = ('hangs caused by search-time behaviour, well-formedness of printed numbers, promptness in wall-clock '
              'terms, liveness of the thread hand-shake (see C10).')
 ASSUMPTIONS = [
